@@ -195,7 +195,8 @@ class IncomingBallsHandler(BallDeviceStateHandler):
                 partial(self._add_incoming_ball_which_may_skip_cb, incoming_ball))
 
     def _add_incoming_ball_which_may_skip_cb(self, incoming_ball, future):
-        if not future.cancelled():
+        # the ball may have arrived (or got lost) before this callback ran. do not track it then
+        if not future.cancelled() and incoming_ball in self._incoming_balls:
             self.ball_device.outgoing_balls_handler.add_incoming_ball_which_may_skip(incoming_ball)
 
     def remove_incoming_ball(self, incoming_ball: IncomingBall):
